@@ -33,10 +33,14 @@ fn c04_space() -> Vec<C04Spec> {
     let mut v: Vec<C04Spec> = vec![];
     for si in 0..4 {
         let n0 = if si == 3 { 2 } else { first_pass_len(C04_SIZES[si], 32) };
-        for nak in [0usize, 2] {
+        // nak index 4 stands for unacknowledged mode with closure (the receiver stays open until its ACK limit)
+        for nak in [0usize, 2, 4] {
             for w in [1usize, 2] {
                 for (la, lf) in [(false, false), (true, false), (false, true), (true, true)] {
                     if nak == 2 && (la || lf) && w == 2 {
+                        continue;
+                    }
+                    if nak == 4 && (w == 2 || la) {
                         continue;
                     }
                     // singles from the sender's first pass, early and late in the window
@@ -65,7 +69,12 @@ fn c04_build(case: &str, seed: u64, spec: &C04Spec, idx: usize) -> Case {
     let (si, nak, w, la, lf, red) = spec.clone();
     let mut k = Knobs::base();
     k.seg = 32;
-    k.nak = nak_procs()[nak];
+    if nak == 4 {
+        k.mode = unack();
+        k.closure = true;
+    } else {
+        k.nak = nak_procs()[nak];
+    }
     let mut rng = Rng::derive(seed, 401, idx as u64);
     let c = content(&mut rng, C04_SIZES[si], idx as u64 % 5, 32, 0xC04);
     let mut sc = two_party(case, seed ^ idx as u64, &k, c);
@@ -110,7 +119,7 @@ pub fn c04_case(fam: &str, idx: usize, seed: u64) -> Option<Case> {
                 let e = if rng.chance(3, 4) { 0 } else { 1 };
                 red.push((e, rng.usize(if e == 0 { n0 + 2 } else { 4 }), *rng.pick(&[0u64, 1, 2, 5, 400, 1500, 2900, 3100, 5500])));
             }
-            let spec: C04Spec = (si, rng.usize(4), 1 + rng.usize(2), rng.bool(), rng.bool(), red);
+            let spec: C04Spec = (si, rng.usize(5), 1 + rng.usize(2), rng.bool(), rng.bool(), red);
             let mut cs = c04_build(&case, seed, &spec, idx);
             cs.sc.seed = rng.next_u64();
             // prompts issued by the sending user while the receiver waits
@@ -239,7 +248,7 @@ pub fn run_c04(tier: &str, seed: u64, replay: Option<&str>) -> (Meta, Report) {
     let meta = Meta {
         property: "C04",
         level: "fault_enumeration",
-        rule: "acknowledged mode, files of 2-3 segments and filestore-request-only transactions, every transaction carries a non-idempotent append request; ACK(Finished) is withheld once or twice so that the receiver stays open after its success indication; optional loss of the first ACK(EOF) / first Finished. sys = re-delivery, 1 ms and 1.5 s after the receiver's Finished indication, of EVERY PDU of the sender's first pass (singles), of EVERY ordered pair of them, and of each of the receiver's first three PDUs to the sender (complete). rand = 1-3 re-deliveries of any emitted PDU at random delays, prompts from the sending user, an extra dup/delay fault. distinct_nontrivial = distinct (config, size, event-order) signatures among runs where at least one late PDU reached the still-open transaction.".into(),
+        rule: "acknowledged mode (and unacknowledged mode with closure, where the receiver stays open until its ACK limit), files of 2-3 segments and filestore-request-only transactions, every transaction carries a non-idempotent append request; ACK(Finished) is withheld once or twice so that the receiver stays open after its success indication; optional loss of the first ACK(EOF) / first Finished. sys = re-delivery, 1 ms and 1.5 s after the receiver's Finished indication, of EVERY PDU of the sender's first pass (singles), of EVERY ordered pair of them, and of each of the receiver's first three PDUs to the sender (complete). rand = 1-3 re-deliveries of any emitted PDU at random delays, prompts from the sending user, an extra dup/delay fault. distinct_nontrivial = distinct (config, size, event-order) signatures among runs where at least one late PDU reached the still-open transaction.".into(),
         exhaustive: true,
         assumptions: vec!["window = from the receiver's first success indication to the end of its (first) transaction task; PDUs arriving after that start a new transaction and are out of scope, as the property says".into()],
         require: vec![("c04_windows_judged".into(), 500), ("c04_late_pdus_delivered_in_window".into(), 500), ("c04_checked:requests-once".into(), 500)],
